@@ -432,10 +432,13 @@ class Queue(Greenlet):
         tempfails = []
         permfails = []
         for rcpt, rcpt_res in results.items():
+            # The same address may have been given more than once.
+            indexes = [i for i, other in enumerate(envelope.recipients)
+                       if other == rcpt]
             if rcpt_res is None or isinstance(rcpt_res, Reply):
-                delivered.add(envelope.recipients.index(rcpt))
+                delivered.update(indexes)
             elif isinstance(rcpt_res, PermanentRelayError):
-                delivered.add(envelope.recipients.index(rcpt))
+                delivered.update(indexes)
                 permfails.append((rcpt, rcpt_res.reply))
             elif isinstance(rcpt_res, TransientRelayError):
                 tempfails.append((rcpt, rcpt_res.reply))
